@@ -30,7 +30,7 @@ for sid, prop, code, sig in rows:
             txt = [l.strip() for l in open(notes) if l.strip() and not l.startswith("#")]
             need = " ".join(txt)[:220]
     need = need.replace("|", "/").replace("\n", " ")
-    verdict = {"1": "caught", "0": "MISSED", "2": "harness error"}.get(code, code)
+    verdict = {"1": "caught", "0": "MISSED", "2": "harness error", "neutralised": "n/a (neutralised)"}.get(code, code)
     caught += code == "1"
     out.append("| %s | %s | %s | %s | `%s` |" % (sid, prop, need, verdict, sig))
 out += ["", "%d of %d seeded changes are caught by the quick tier of the check of the property they target." % (caught, len(rows)), ""]
